@@ -1092,10 +1092,20 @@ func (m *Nitro) LoadFromDisk(dir string, concurr int, callb ItemCallback) (*Snap
 	if bs, err = ioutil.ReadFile(filepath.Join(datadir, "files.json")); err != nil {
 		return nil, err
 	}
-	json.Unmarshal(bs, &files)
+	if err = json.Unmarshal(bs, &files); err != nil {
+		return nil, err
+	}
+	if err = checkShardList(files); err != nil {
+		return nil, err
+	}
 
 	if bs, err := ioutil.ReadFile(filepath.Join(datadir, "checksums.json")); err == nil {
-		json.Unmarshal(bs, &checksums)
+		if err = json.Unmarshal(bs, &checksums); err != nil {
+			return nil, err
+		}
+		if len(checksums) != len(files) {
+			return nil, ErrCorruptSnapshot
+		}
 	} else {
 		checksums = make([]uint32, len(files))
 	}
@@ -1195,7 +1205,15 @@ func (m *Nitro) LoadFromDisk(dir string, concurr int, callb ItemCallback) (*Snap
 		deltadir := filepath.Join(dir, "delta")
 		var files []string
 		if bs, err := ioutil.ReadFile(filepath.Join(deltadir, "files.json")); err == nil {
-			json.Unmarshal(bs, &files)
+			if err = json.Unmarshal(bs, &files); err != nil {
+				return nil, err
+			}
+			if err = checkShardList(files); err != nil {
+				return nil, err
+			}
+		} else if _, serr := os.Stat(deltadir); serr == nil {
+			// A delta directory without its file list is an incomplete backup
+			return nil, err
 		}
 
 		readers := make([]FileReader, len(files))
@@ -1203,7 +1221,12 @@ func (m *Nitro) LoadFromDisk(dir string, concurr int, callb ItemCallback) (*Snap
 		writers := make([]*Writer, concurr)
 		deltaChecksums := make([]uint32, len(files))
 		if bs, err := ioutil.ReadFile(filepath.Join(deltadir, "checksums.json")); err == nil {
-			json.Unmarshal(bs, &deltaChecksums)
+			if err = json.Unmarshal(bs, &deltaChecksums); err != nil {
+				return nil, err
+			}
+			if len(deltaChecksums) != len(files) {
+				return nil, ErrCorruptSnapshot
+			}
 		}
 
 		defer func() {
@@ -1289,6 +1312,18 @@ func (m *Nitro) LoadFromDisk(dir string, concurr int, callb ItemCallback) (*Snap
 	stats := m.store.GetStats()
 	m.itemsCount = int64(stats.NodeCount)
 	return m.NewSnapshot()
+}
+
+// checkShardList rejects a backup file list that names a shard file twice
+func checkShardList(files []string) error {
+	seen := make(map[string]bool, len(files))
+	for _, file := range files {
+		if seen[file] {
+			return ErrCorruptSnapshot
+		}
+		seen[file] = true
+	}
+	return nil
 }
 
 // DumpStats returns Nitro statistics
